@@ -8,18 +8,18 @@ the start unchanged.
 namespace Sop.Commit
 
 theorem commit_ok_installs {s0 : State} {w : WS} {fresh0 : List (UUID × UUID)} (pre : Pre s0 w fresh0) (pre2 : Pre2 s0 w fresh0)
-    (fault : Option Fault) (tid : Tid) (n : Nat) (r2 : Run)
-    (hok : commit w n { s := s0, tid := tid, fault := fault, fresh := fresh0 } = (.ok, r2)) :
-    ∃ r1, phase1 w n { s := s0, tid := tid, fault := fault, fresh := fresh0 } = .ok ((), r1) ∧
+    (fault : Option Fault) {cs0 : Step} (tid : Tid) (n : Nat) (r2 : Run)
+    (hok : commit w n { s := s0, tid := tid, fault := fault, fresh := fresh0, cs := cs0 } = (.ok, r2)) :
+    ∃ r1, phase1 w n { s := s0, tid := tid, fault := fault, fresh := fresh0, cs := cs0 } = .ok ((), r1) ∧
       (w.hasTracked = true → r1.reserved.map (fun h => (h.lid, h.version)) = w.updated) ∧
       (∀ h ∈ r1.reserved, h.inactive ≠ 0 → r2.s.view h.lid = some (h.inactive, h.version + 1)) ∧
       (∀ lid, (s0.view lid).isSome → (∀ h ∈ r1.reserved, h.lid ≠ lid) → (∀ g ∈ r1.removedH, g.lid ≠ lid) →
         r2.s.view lid = s0.view lid) := by
-  have hj0 : J0 s0 w fresh0 { s := s0, tid := tid, fault := fault, fresh := fresh0 } :=
+  have hj0 : J0 s0 w fresh0 { s := s0, tid := tid, fault := fault, fresh := fresh0, cs := cs0 } :=
     ⟨⟨SInv.init s0 w fresh0 pre, fun _ hp => hp⟩, rfl, rfl⟩
   have h1 := staged_phase1 pre pre2 n _ hj0
   unfold commit at hok
-  cases hp : phase1 w n { s := s0, tid := tid, fault := fault, fresh := fresh0 } with
+  cases hp : phase1 w n { s := s0, tid := tid, fault := fault, fresh := fresh0, cs := cs0 } with
   | error r1 =>
     rw [hp] at hok
     simp only at hok
